@@ -238,6 +238,17 @@ class Gen:
                 self.var_defs[nme] = lit(c, rnd, ["hex6", "rgbfn", "hslfn", "named"])
                 self.var_user_bg[nme] = bgc
                 textexpr = ("var", nme)
+                fbk = rnd.random()
+                if fbk < 0.15:
+                    # fallback forms: the property in effect is the OUTER one when it is defined; the fallback (a literal or
+                    # another var(), itself defined and of a different colour) is not in effect and must stay as it is
+                    self.var_defs["--fb%d" % self.n] = ("lit", rnd.choice(["#8a8a8a", "#000000", "#ffffff", "#777777"]))
+                    textexpr = ("varfb", nme, "var(--fb%d)" % self.n if rnd.random() < 0.7 else "var( --fb%d , #123456 )" % self.n)
+                elif fbk < 0.25:
+                    textexpr = ("varfb", nme, rnd.choice(["#8a8a8a", "rgb(1, 2, 3)", "hsl(10, 20%, 30%)"]))
+                elif fbk < 0.35:
+                    # outer property undefined: the fallback - a var() that is defined - is what is in effect
+                    textexpr = ("varfb", "--undef%d" % self.n, "var(%s)" % nme)
             elif rnd.random() < self.f_known:
                 # F5 class: fallback form
                 nme = rnd.choice(["--c0", "--nofb"])
